@@ -1,11 +1,48 @@
-PROP = {
-    "kani_groups": ["hk_batcher"],
-    "smt": [],
-    "technique": "bounded model checking (Kani/CBMC) of one-step harnesses over the real emit_batcher code",
-    "functions": [],
-    "bounds": "",
-    "outside": "",
-    "stubs": [],
-    "assumptions": [],
-    "timeout": {"quick": 900, "thorough": 3600},
-}
+PROP = {'kani_groups': ['hk_batcher'],
+ 'smt': [],
+ 'technique': 'bounded model checking (Kani/CBMC) of one-step inductive harnesses over the real emit_batcher code: '
+              'when_flushed from an arbitrary state, the Watchers kernel, and one full receiver-loop iteration '
+              '(de-asynced exec) from an arbitrary state; composition over histories is a written induction',
+ 'functions': ['Sender::when_flushed, Watchers::{new, push_on_flush, push_on_take, notify_on_flush, notify_on_take}, '
+               'Batch::new/default',
+               'Receiver::exec (one loop iteration: swap under the lock, take-notify, attempts and retry waits, '
+               'flush-notify)'],
+ 'bounds': 'capacity 1..=3, pending <= capacity, <= 1 (thorough 2) flush watchers already registered; receiver '
+           'iteration: 0..=2 (thorough 3) items, 1 (thorough 0..2) watchers of each kind travelling with the batch, '
+           'retry budget 0/1 (thorough 2), all processor outcome sequences incl. panics',
+ 'outside': 'CANNOT BE ENCODED (Kani executes one thread, no OS): batcher/src/tokio.rs and web.rs entirely; the '
+            'blocking wrappers of batcher/src/sync.rs (Trigger/condvar wait_timeout, Instant, thread spawn/join, its '
+            'block_on); wall-clock time; real unwinding; the std mutex itself (assumed). The multi-step composition '
+            '(any number of senders, any interleaving, histories of any length) is a WRITTEN induction over the '
+            'solver-checked one-step obligations (harness/hk_batcher/src/lib.rs), not a solver result; a bounded '
+            'multi-step schedule harness did not fit CBMC (20 min symex, no verdict). Also outside: blocking_flush / '
+            'tokio flush (oneshot, condvar, timeouts) — only the callback they register is covered; the end-to-end '
+            'clause through the emitters (rolling files written and synced, OTLP requests answered) — see C10/C12; a '
+            'flush requested after the receiver was torn down (the code then reports completion at once; the '
+            'property speaks about a live receiver)',
+ 'stubs': ['batcher:mutex — std::sync::Mutex in batcher/src/lib.rs -> single-owner cell with the same lock() API, an '
+           'acquisition counter and a hook called before every acquisition; asserts the lock is never re-acquired '
+           "while held. Mutual exclusion itself is std's contract and is ASSUMED",
+           'batcher:catch-unwind — std::panic::catch_unwind -> panic plan: the i-th guarded call either runs its '
+           'closure and returns Ok, or (plan bit i) does not run it, drops it and returns Err; partial effects of a '
+           'closure that panics half-way are not modelled',
+           'batcher:exec-fn/exec-await-* — Receiver::exec de-asynced in the scratch tree only (async fn -> fn, each '
+           '.await -> poll once with a no-op waker, the future must be Ready); preserves the program order of the '
+           'single receiver task for processors/waits whose futures complete; never-completing futures are outside',
+           'batcher:capacity-pub + #[kani::stub(Capacity::next -> constant 0)] in the receiver harnesses only: the '
+           'result is only a hint for Channel::with_capacity (ignored by the harness queue); the real Capacity::next '
+           'is decided for every state by c06_q_k_capacity',
+           "receiver harnesses cut the run by assume(false) at the receiver's second acquisition of the state lock, "
+           'after the post-conditions of the iteration were asserted there',
+           'inject/batcher.rs: read-only snapshot, constructor of a (Sender, Receiver) pair from an explicit state '
+           '(through `bounded`), pub wrappers around send_or_wait / Watchers / Batch::new / Retry / Delay / Capacity '
+           '/ CatchUnwind — no logic'],
+ 'assumptions': ['pre-state of every one-step harness: 1 <= capacity <= 3, pending <= capacity (representation '
+                 'invariant I0, shown preserved by every sender step); everything else arbitrary',
+                 'Channel instantiation: ArrQ<4>, a fixed-array FIFO of u8 implementing the public Channel trait '
+                 '(Vec::push with symbolic length costs 9 M SAT variables); other Channel impls are outside',
+                 'std::sync::Mutex provides mutual exclusion (assumed, replaced)',
+                 "'channel closed' observed by when_flushed means the receiver is gone (a dropped Sender cannot call "
+                 'when_flushed)'],
+ 'timeout': {'quick': 900, 'thorough': 3600},
+ 'slow_first': ['_r_exec']}
